@@ -45,7 +45,18 @@ class V:
                 self.e('ShortIf'); self.exp(pairs[0][0]); self.chunk(pairs[0][1], True)
                 if len(pairs) > 1:
                     self.e('SElse'); self.chunk(pairs[1][1], True)
-                else: self.e('SElseNone')
+                else:
+                    # an `else` with nothing after it has no block in picotool's tree (by design, pinned by its tests);
+                    # an empty else part denotes nothing, so the tree still is the tree of the program: the event is
+                    # taken from the statement's own token range
+                    k = pairs[0][1].end_pos
+                    while k < s.end_pos and type(self.toks[k]).__name__ in ('TokSpace', 'TokComment', 'TokSymbol') and \
+                            (type(self.toks[k]).__name__ != 'TokSymbol' or self.toks[k].code == b';'):
+                        k += 1
+                    if k < s.end_pos and self.toks[k].matches(lexer.TokKeyword(b'else')):
+                        self.e('SElseEmpty')
+                    else:
+                        self.e('SElseNone')
             else:
                 self.e('If'); self.exp(pairs[0][0]); self.chunk(pairs[0][1])
                 rest = pairs[1:]
